@@ -15,7 +15,31 @@ def sh(cmd, cwd=None, timeout=3600):
     p = subprocess.run(cmd, shell=True, cwd=cwd, stdout=subprocess.PIPE, stderr=subprocess.STDOUT, text=True, timeout=timeout)
     return p.returncode, p.stdout
 
+def recheck():
+    """tools_seed.py recheck <seed dir name, e.g. C05-1> <check id> ...  : step 2 only, from the saved patch"""
+    name, checks = sys.argv[2], sys.argv[3:]
+    out = f"/verif/seeded/{name}"
+    meta = json.load(open(f"{out}/meta.json"))
+    rc, o = sh("git -C /repo status --short | grep -v '^??' | head -3")
+    if o.strip():
+        print("refusing: /repo has uncommitted changes", o); sys.exit(2)
+    rc, o = sh(f"git -C /repo apply {out}/patch.diff")
+    if rc != 0:
+        print("patch does not apply to the current /repo:", o); sys.exit(2)
+    try:
+        for c in checks:
+            t0 = time.time()
+            rc, o = sh(f"cd /verif && ./vcheck {c} quick 2>&1 | grep -E 'VIOLATION|failure:|INCONCLUSIVE|quick:' | cut -c1-400 | head -12", timeout=7200)
+            meta["detection"][c] = {"quick_detects": "VIOLATION" in o, "wall_s": round(time.time() - t0, 1), "output": o.strip().splitlines()[:8]}
+    finally:
+        sh("git -C /repo checkout -- .")
+        sh("rm -rf /verif/replays")
+    json.dump(meta, open(f"{out}/meta.json", "w"), indent=1)
+    print(json.dumps({"seed": name, "detection": {c: d["quick_detects"] for c, d in meta["detection"].items()}}))
+
 def main():
+    if sys.argv[1] == "recheck":
+        return recheck()
     pid, k = sys.argv[1], sys.argv[2]
     checks = [pid] + sys.argv[3:]
     wt = f"/tmp/seed/{pid}"
